@@ -324,7 +324,7 @@ def run_corrupt_one(gen, kind, raw_a, raw_b_intact, bits):
         await quiesce(loop)
         pid = 100
         sent_probe_bytes = 0
-        while c1.open and sent_probe_bytes <= MAX_PROBE_BYTES + 64:
+        while c1.open and sent_probe_bytes <= MAX_PROBE_BYTES + 4096:
             chunk = bytearray()
             # bulk up to 2 kB of probes per turn
             while len(chunk) < 2048:
